@@ -66,15 +66,6 @@ pub fn parent_states() -> Vec<(String, RVm)> {
     ]
 }
 
-/// Schedule-independent part of an outcome (what C10/C02 compare across schedules).
-pub fn sched_obs(o: &RealOut) -> (u8, u64, Option<Snap>, usize) {
-    match o {
-        RealOut::Ok { gas, snap } => (0, *gas, Some(snap.clone()), 0),
-        RealOut::Err { index, .. } => (1, 0, None, *index),
-        RealOut::Panic { .. } => (2, 0, None, 0),
-    }
-}
-
 /// Enumerate schedules of one completed program; every observation must equal the sequential one.
 pub fn schedule_check(prop: &'static str, px: &Px, ops: &[Op], seq: &RealOut, tier: Tier, rep: &mut Report) {
     let h = Holey { ops: Arc::new(ops.iter().cloned().map(Some).collect()) };
@@ -233,6 +224,13 @@ fn run(cfg: &RunCfg, rep: &mut Report) {
 fn replay(case: &Value) -> Result<bool, String> {
     super::vmgraph::install_hook();
     match case["kind"].as_str() {
+        Some("sched") => replay_sched(case, true),
+        _ => progx::replay_prog("C10", case),
+    }
+}
+
+pub fn replay_sched(case: &Value, free_small: bool) -> Result<bool, String> {
+    match case["kind"].as_str() {
         Some("sched") => {
             let ops = ops_from_hex(case["ops_hex"].as_str().ok_or("ops_hex")?)?;
             let init: RvmSer = serde_json::from_value(case["init"].clone()).map_err(|e| e.to_string())?;
@@ -246,7 +244,7 @@ fn replay(case: &Value) -> Result<bool, String> {
             let once = || -> Result<RealOut, String> {
                 let ctx = xplore::Ctx::new(choices.clone());
                 let out = if mode == "A" {
-                    sched::run_atomic(&ctx, || run_real_with(&init, h.clone(), &env, false)).0
+                    sched::run_atomic_opt(&ctx, free_small, || run_real_with(&init, h.clone(), &env, false)).0
                 } else {
                     let (h2, i2, e2) = (h.clone(), init.clone(), env.clone());
                     match sched::run_threads(&ctx, move || run_real_with(&i2, h2.clone(), &e2, false)) {
